@@ -80,7 +80,8 @@ class time_limit:
 
     def __enter__(self):
         self.old = signal.signal(signal.SIGALRM, _alarm)
-        self.outer_remaining = signal.setitimer(signal.ITIMER_REAL, self.seconds)[0]
+        # interval 0.2 s: if some handler in the workload swallows the first CaseTimeout, the watchdog fires again
+        self.outer_remaining = signal.setitimer(signal.ITIMER_REAL, self.seconds, 0.2)[0]
         self.t0 = time.monotonic()
 
     def __exit__(self, *a):
